@@ -384,7 +384,7 @@ class C33(Prop):
         "stand-alone program reproduces it (a batch-only mismatch is reported as CAP)",
         "timeouts are counted, never judged",
     ]
-    budget = {"quick": 150, "thorough": 1500}
+    budget = {"quick": 55, "thorough": 1150}
 
     def precheck(self, tier):
         n = R.self_check()
